@@ -28,7 +28,24 @@ class Vis(MomentVisitor):
         self.image = image
 
     def oracle(self, run, snap, where):
-        return check_record(snap, run.problem.log, run.N, self.image, where)
+        msgs = check_record(snap, run.problem.log, run.N, self.image, where)
+        if run.N == 1:
+            # for N = 1 the curve is the affine map of [0, 1] onto the interval: judged by its closed form, whatever
+            # numeric type the (whole-number) bounds were typed in
+            import math
+            import numpy as np
+            p = run.problem
+            lo0 = p._lower0 if hasattr(p, "_lower0") else p.lowerBoundOfFloatVariables
+            up0 = p._upper0 if hasattr(p, "_upper0") else p.upperBoundOfFloatVariables
+            a, b = float(np.asarray(lo0).reshape(-1)[0]), float(np.asarray(up0).reshape(-1)[0])
+            tol = 4 * math.ulp(max(abs(a), abs(b)))
+            for it in snap.items:
+                want = a + it.x * (b - a)
+                got = float(np.asarray(it.y).reshape(-1)[0])
+                if not abs(got - want) <= tol:
+                    msgs.append(f"{where}: item x={it.x!r} stores point {got!r}, the image of its coordinate is {want!r}")
+                    break
+        return msgs
 
     def nontrivial(self, run):
         # trials landed on both sides of the seed point and at least 3 trials
